@@ -229,3 +229,27 @@ def true(devs: List[Dev], sub: str, cond, detail: str = ""):
         devs.append(Dev(sub, detail[:400]))
         return False
     return True
+
+
+# ---- history perturbations (aliasing / stale-cache detectors) ---------------------------------------
+
+
+def scribble(buf) -> bool:
+    """What a caller may legitimately do with a buffer it owns: overwrite and extend it in place.
+    Returns False for immutable buffers (nothing to do)."""
+    if isinstance(buf, bytearray):
+        for i in range(len(buf)):
+            buf[i] ^= 0xA5
+        buf.extend(b"\xee\xee\xee")
+        return True
+    return False
+
+
+def pack_fresh(devs: List[Dev], sub: str, pack, want: bytes, **kw):
+    """pack() must hand out octets the caller may modify: scribbling over a returned buffer must not
+    change what the next pack() of the unchanged object returns."""
+    first = pack(**kw)
+    ok = eq(devs, sub, bytes(first), want)
+    if scribble(first):
+        eq(devs, sub + ".after_caller_modified_returned_buffer", bytes(pack(**kw)), want, "pack() after the caller overwrote the previously returned buffer:")
+    return ok
